@@ -120,6 +120,18 @@ def get_mol(smi, how):
     return m
 
 
+_FACTS = {}
+
+
+def facts_of(mol):
+    k = id(mol)
+    if k not in _FACTS:
+        if len(_FACTS) > 5000:
+            _FACTS.clear()
+        _FACTS[k] = (mol, R.Facts(Chem.AddHs(mol)))
+    return _FACTS[k][1]
+
+
 def ast_key(ast):
     return repr((ast['prefix'], [(a['type'], a['constraints'])
                                  for a in ast['atoms']], ast['bonds']))
@@ -162,7 +174,8 @@ def check_pair(ctx, ast, text, smi, how, mol, alt_texts=()):
         ctx.violation('returned matches contain duplicates', case,
                       {'n': len(got_t), 'distinct': len(got)})
         return 'dup'
-    want, nov = R.match(ast, mol)
+    facts = facts_of(mol)
+    want, nov = R.match(ast, mol, facts=facts)
     if nov:
         ctx.skip('construct without independent meaning (%s)' % nov[0])
         return 'noverdict'
@@ -192,7 +205,7 @@ def check_pair(ctx, ast, text, smi, how, mol, alt_texts=()):
         ctx.nontrivial([text, smi, how])
         ctx.count('pairs_with_matches')
     else:
-        sk, _ = R.match(skeleton(ast), mol)
+        sk, _ = R.match(skeleton(ast), mol, facts=facts)
         if sk:
             ctx.nontrivial([text, smi, how])
             ctx.count('pairs_emptied_by_constraints')
